@@ -37,7 +37,7 @@ package goja
 //@   assigns any(vm.tryStack), any(vm.callStack), any(context.prg), any(context.stash), any(context.privEnv), any(context.newTarget), any(context.result), any(context.pc), any(context.sb), any(context.args), any(vm.prg), any(vm.stash), any(vm.privEnv), any(vm.newTarget), any(vm.result), any(vm.pc), any(vm.sb), any(vm.args)
 
 //@ func (*generator).step
-//@   props C03 C15
+//@   props C03 C15 C08
 //@   requires g != nil && g.vm != nil && int(g.tryStackLen) >= 1 && int(g.tryStackLen) <= len(g.vm.tryStack) && g.vm.tryStack[int(g.tryStackLen)-1].catchPos == tryPanicMarker && g.vm.tryStack[int(g.tryStackLen)-1].finallyRet == -1
 //@   loop 1 invariant g.vm == old(g.vm) && g.tryStackLen == old(g.tryStackLen) && int(g.tryStackLen) <= len(g.vm.tryStack) && g.vm.tryStack[int(g.tryStackLen)-1].catchPos == tryPanicMarker && g.vm.tryStack[int(g.tryStackLen)-1].finallyRet == -1 [own-marker-in-place]
 //@   loop 1 invariant @gMarkersKeptBelow [markers-kept]
@@ -45,6 +45,12 @@ package goja
 //@   loop 2 invariant g.vm == old(g.vm) && g.tryStackLen == old(g.tryStackLen) && int(g.tryStackLen) <= len(g.vm.tryStack) && g.vm.tryStack[int(g.tryStackLen)-1].catchPos == tryPanicMarker && g.vm.tryStack[int(g.tryStackLen)-1].finallyRet == -1 [own-marker-in-place]
 //@   loop 2 invariant @gMarkersKeptBelow [markers-kept]
 //@   loop 2 invariant @gNoNewMarkersBelow [no-new-markers-below-own]
+// C08: when an exception is thrown inside a finally block that return() is running, the latched frame
+// of that block is popped and the exception is handed to the caller - which is only right if no other
+// frame of the generator (an enclosing finally or catch) is still pending. KNOWN FINDING: it is not
+// checked, enclosing finally blocks are skipped (known_findings.json).
+//@   site popTryFrame#1 vars g *generator, vm *vm
+//@   site popTryFrame#1 requires len(vm.tryStack) == int(g.tryStackLen)+1 [exception-in-a-finally-run-by-return-skips-no-enclosing-frame]
 //@   ensures_abrupt @ownMarker [own-marker-still-in-place]
 //@   ensures_abrupt g.tryStackLen == old(g.tryStackLen) [heights-record-kept]
 //@   ensures_abrupt @gMarkersKeptBelow [markers-kept]
